@@ -148,3 +148,92 @@ pub fn gen_tree(rng: &mut Rng, p: &TreeParams) -> Tree {
     builder.stop();
     tree
 }
+
+/// incremental construction of a tree with chosen parents and timestamp gaps
+pub struct TreeBuilder {
+    pub tree: Tree,
+    builder: Option<Node>,
+    builder_tip: u64,
+}
+
+impl TreeBuilder {
+    pub fn new(genesis_epoch_length: u64) -> TreeBuilder {
+        let cfg = ChainCfg { genesis_epoch_length, ..Default::default() };
+        let (consensus, funds) = make_consensus(&cfg);
+        let genesis_difficulty = consensus.genesis_block().header().difficulty();
+        let builder = Node::temp(&consensus);
+        TreeBuilder { tree: Tree { consensus, funds, genesis_difficulty, nodes: vec![], by_hash: HashMap::new() }, builder: Some(builder), builder_tip: 0 }
+    }
+    /// adds a valid block on top of `parent` (0 = genesis); returns its id
+    pub fn add(&mut self, parent: u64, ts_delta: u64) -> u64 {
+        if parent != self.builder_tip {
+            self.builder.take().unwrap().stop();
+            let b = Node::temp(&self.tree.consensus);
+            for id in self.tree.path(parent) {
+                b.chain().blocking_process_block_with_switch(Arc::new(self.tree.node(id).block.clone()), Switch::DISABLE_ALL).expect("replay on builder");
+            }
+            self.builder = Some(b);
+        }
+        let k = self.tree.nodes.len() as u64 + 1;
+        let block = build_block(self.builder.as_ref().unwrap(), &BlockPlan { ts_delta, nonce: k as u128, ..Default::default() });
+        self.builder.as_ref().unwrap().chain().blocking_process_block_with_switch(Arc::new(block.clone()), Switch::DISABLE_ALL).expect("builder attaches");
+        self.builder_tip = k;
+        self.tree.by_hash.insert(block.hash(), k);
+        self.tree.nodes.push(TNode { id: k, parent, kind: Kind::Valid, difficulty: block.header().difficulty(), block });
+        k
+    }
+    pub fn finish(mut self) -> Tree {
+        if let Some(b) = self.builder.take() { b.stop(); }
+        self.tree
+    }
+}
+
+fn u128_of(x: &U256) -> u128 { format!("{}", x).parse().unwrap() }
+
+/// A short heavy branch against a long light one: the main branch crosses its
+/// first epoch quickly (difficulty up), the competing branch slowly (difficulty
+/// down); the light branch grows several blocks above the heavy tip before it
+/// overtakes, then is extended further.
+pub fn gen_tree_heavy_vs_light(rng: &mut Rng) -> Tree {
+    let gel = rng.range(2, 4);
+    let mut tb = TreeBuilder::new(gel);
+    let td = |t: &Tree, id: u64| -> u128 { t.path(id).iter().map(|i| u128_of(&t.node(*i).difficulty)).sum::<u128>() };
+    // trial branches from genesis with different paces through the first epoch; each
+    // ends with one block of the second epoch, whose difficulty depends on the pace
+    let paces = [1u64, 40, 3_000, 200_000, 2_400_000, 7_000_000, 14_400_000, 40_000_000];
+    let mut trials: Vec<(u64, u128)> = vec![]; // (tip id, difficulty of the second epoch)
+    for _ in 0..5 {
+        let pace = *rng.pick(&paces);
+        let mut t = 0u64;
+        for _ in 0..gel { t = tb.add(t, std::cmp::max(1, pace / gel)); }
+        t = tb.add(t, rng.range(1, 900));
+        let d = u128_of(&tb.tree.node(t).difficulty);
+        trials.push((t, d));
+    }
+    // a heavier pace against a lighter one: the pair with the smallest ratio above 1
+    trials.sort_by_key(|x| x.1);
+    let mut best: Option<(usize, usize)> = None;
+    for i in 0..trials.len() {
+        for j in 0..trials.len() {
+            if trials[j].1 > trials[i].1 {
+                let better = match best { None => true, Some((bi, bj)) => trials[j].1 * trials[bi].1 < trials[bj].1 * trials[i].1 };
+                if better { best = Some((i, j)); }
+            }
+        }
+    }
+    let (li, hi) = best.unwrap_or((0, trials.len() - 1));
+    let (light_tip, _) = trials[li];
+    let mut a = trials[hi].0;
+    for _ in 0..rng.range(0, 1) { a = tb.add(a, rng.range(1, 900)); }
+    let td_a = td(&tb.tree, a);
+    let mut b = light_tip;
+    let mut over = 0;
+    let mut guard = 0;
+    while over < 3 && guard < 70 {
+        guard += 1;
+        b = tb.add(b, rng.range(1, 900));
+        if td(&tb.tree, b) > td_a { over += 1; }
+    }
+    if rng.chance(1, 2) { let mut x = a; for _ in 0..rng.range(1, 3) { x = tb.add(x, rng.range(1, 900)); } }
+    tb.finish()
+}
